@@ -107,6 +107,9 @@ def gen(rng, tier):
         else:
             cnt += 1
             name = f"d{cnt}"
+            if model["bbs"] and rng.random() < 0.2:
+                # an ordinary gate whose (legal) name sits under an instance's prefix, like uid- or hierarchy-derived names
+                name = f"{rng.choice(sorted(model['bbs']))}.{rng.choice(('q_n', 'x', 'n3', 'q_0'))}{cnt}"
             t = rng.choice(["and", "or", "xor", "nand", "buf", "not", "input", "input", "0", "1", "x", "nor", "xnor"])
             drivers = [n for n in names if nodes[n][0] not in ("bb_input", "bb_output")]
             if t in ("input", "0", "1", "x") or not drivers:
